@@ -26,9 +26,9 @@ static std::string wire(const Req& r, const std::vector<size_t>& chunks) {
 	return s;
 }
 // feeds `stream` in the given pieces (pause between them), the reader takes `n` requests from ONE connection
-static int exchange(const std::vector<Req>& reqs, const std::string& stream, const std::vector<size_t>& cuts, const char* what) {
+static int exchange(const std::vector<Req>& reqs, const std::string& stream, const std::vector<size_t>& cuts, const char* what, int pause_us = 15000) {
 	int fd[2]; if (socketpair(AF_UNIX, SOCK_STREAM, 0, fd) != 0) return 2;
-	std::thread w([&] { size_t off = 0; for (size_t i = 0; i <= cuts.size(); i++) { size_t end = i < cuts.size() ? cuts[i] : stream.size(); if (end > stream.size()) end = stream.size(); if (end > off) { if (write(fd[0], stream.data() + off, end - off)) {} off = end; usleep(15000); } } });
+	std::thread w([&] { size_t off = 0; for (size_t i = 0; i <= cuts.size(); i++) { size_t end = i < cuts.size() ? cuts[i] : stream.size(); if (end > stream.size()) end = stream.size(); if (end > off) { if (write(fd[0], stream.data() + off, end - off)) {} off = end; usleep(pause_us); } } });
 	int rc = 0;
 	{ Socket sock(fd[1]);
 	  for (size_t i = 0; i < reqs.size() && !rc; i++) { alarm(10); HttpRequest rq(sock); alarm(0);
@@ -62,8 +62,8 @@ int main(int argc, char** argv)
 		if (exchange(reqs, stream, {}, "stream delivered whole")) return 1;
 		if (exchange(reqs, stream, starts, "stream cut at the request boundaries")) return 1;
 		for (size_t step : { 1000u, 333u, 97u }) { std::vector<size_t> cuts; for (size_t c = step; c < stream.size(); c += step) cuts.push_back(c); char what[64]; snprintf(what, 64, "stream cut every %zu bytes", step); if (exchange(reqs, stream, cuts, what)) return 1; }
-		{ size_t p = stream.find("64\r\n", starts[1]); if (p != std::string::npos) { if (exchange(reqs, stream, { p + 4 + 40 }, "a 100-byte chunk arriving as 40 bytes, then the rest together with the following chunks")) return 1; } }
-		{ size_t p = stream.find("0\r\n\r\n", starts[1] + 100); if (p != std::string::npos) { if (exchange(reqs, stream, { p + 3 }, "cut between the last-chunk line and its final CRLF")) return 1; } }
+		{ size_t p = stream.find("64\r\n", starts[1]); if (p != std::string::npos) { if (exchange(reqs, stream, { p + 4 + 40 }, "a 100-byte chunk arriving as 40 bytes, then the rest together with the following chunks", 300000)) return 1; } }   /* (long pause: the reader must really see the partial chunk) */
+		{ size_t p = stream.find("0\r\n\r\n", starts[1] + 100); if (p != std::string::npos) { if (exchange(reqs, stream, { p + 3 }, "cut between the last-chunk line and its final CRLF", 300000)) return 1; } }
 		// header names are case-insensitive: the same POST with canonical, lower-case and upper-case names delivers the same body and header values
 		for (const char* cl : { "Content-Length", "content-length", "CONTENT-LENGTH", "cOnTeNt-lEnGtH" }) { int fd[2]; if (socketpair(AF_UNIX, SOCK_STREAM, 0, fd) != 0) return 2;
 			std::string rq = std::string("POST /p HTTP/1.1\r\nHOST: h\r\nx-api-TOKEN: t0k\r\n") + cl + ": 5\r\n\r\nhello"; if (write(fd[0], rq.data(), rq.size()) != (ssize_t)rq.size()) return 2;
